@@ -12,13 +12,16 @@ Proof. intros. unfold push_chunk. destruct (blen buf + blen chunk <=? cap) eqn:E
 Lemma push_chunk_err : forall cap buf chunk, cap < blen buf + blen chunk ->
   push_chunk cap buf chunk = ErrOther.
 Proof. intros. unfold push_chunk. destruct (blen buf + blen chunk <=? cap) eqn:E; [apply Z.leb_le in E; lia|reflexivity]. Qed.
+Lemma push_chunk_cases : forall cap buf chunk,
+  push_chunk cap buf chunk = if blen buf + blen chunk <=? cap then Ok (buf ++ chunk) else ErrOther.
+Proof. reflexivity. Qed.
 
 (* WebAuthn 6.1 / 6.5.1: the layout as one concatenation *)
 Definition acd_bytes (a : attested) : bytes :=
   ac_aaguid a ++ be 2 (blen (ac_id a)) ++ ac_id a ++ ac_key a.
 
 Definition authdata_layout (rp : bytes) (flags count : Z) (acd : option attested) (ext : option bytes) : bytes :=
-  rp ++ [flags] ++ be 4 count
+  (rp ++ [flags] ++ be 4 count)
   ++ match acd with Some a => acd_bytes a | None => [] end
   ++ match ext with Some x => x | None => [] end.
 
@@ -27,35 +30,30 @@ Definition id_ok (acd : option attested) : bool :=
 
 Ltac lens := repeat rewrite ?blen_app, ?blen_be, ?blen_cons in *; unfold blen in *; cbn [List.length] in *.
 
-(* the fixed header *)
-Lemma header_steps : forall cap rp flags count,
-  (b <- push_chunk cap [] rp ;; b <- push_chunk cap b [flags] ;; push_chunk cap b (be 4 count))
-  = if blen rp + 5 <=? cap then Ok (rp ++ [flags] ++ be 4 count) else ErrOther.
+Lemma ad_header_spec : forall cap rp flags count,
+  ad_header cap rp flags count =
+    if blen (rp ++ [flags] ++ be 4 count) <=? cap then Ok (rp ++ [flags] ++ be 4 count) else ErrOther.
 Proof.
-  intros cap rp flags count.
-  destruct (blen rp + 5 <=? cap) eqn:E.
+  intros cap rp flags count. unfold ad_header.
+  destruct (blen (rp ++ [flags] ++ be 4 count) <=? cap) eqn:E.
   - apply Z.leb_le in E.
     rewrite push_chunk_ok by (lens; lia). cbn [bind app].
     rewrite push_chunk_ok by (lens; lia). cbn [bind].
     rewrite push_chunk_ok by (lens; lia). rewrite <- app_assoc. reflexivity.
   - apply Z.leb_gt in E.
-    unfold push_chunk at 1. destruct (blen [] + blen rp <=? cap) eqn:E1; [|reflexivity]. cbn [bind app].
+    rewrite push_chunk_cases. destruct (blen [] + blen rp <=? cap) eqn:E1; [|reflexivity]. cbn [bind app].
     apply Z.leb_le in E1.
-    unfold push_chunk at 1. destruct (blen rp + blen [flags] <=? cap) eqn:E2; [|reflexivity]. cbn [bind].
+    rewrite push_chunk_cases. destruct (blen rp + blen [flags] <=? cap) eqn:E2; [|reflexivity]. cbn [bind].
     apply Z.leb_le in E2.
     apply push_chunk_err. lens. lia.
 Qed.
 
-Lemma acd_steps : forall cap b a,
-  (b1 <- push_chunk cap b (ac_aaguid a) ;;
-   _ <- (if 65535 <? blen (ac_id a) then ErrOther else Ok tt) ;;
-   b2 <- push_chunk cap b1 (be 2 (blen (ac_id a))) ;;
-   b3 <- push_chunk cap b2 (ac_id a) ;;
-   push_chunk cap b3 (ac_key a))
-  = if (blen b + blen (acd_bytes a) <=? cap) && (blen (ac_id a) <=? 65535)
+Lemma ad_acd_spec : forall cap b a,
+  ad_acd cap b a =
+    if (blen b + blen (acd_bytes a) <=? cap) && (blen (ac_id a) <=? 65535)
     then Ok (b ++ acd_bytes a) else ErrOther.
 Proof.
-  intros cap b a. unfold acd_bytes.
+  intros cap b a. unfold ad_acd, acd_bytes.
   destruct (blen (ac_id a) <=? 65535) eqn:Eid.
   - apply Z.leb_le in Eid. rewrite andb_true_r.
     destruct (65535 <? blen (ac_id a)) eqn:E0; [apply Z.ltb_lt in E0; lia|].
@@ -66,17 +64,17 @@ Proof.
       rewrite push_chunk_ok by (lens; lia). cbn [bind].
       rewrite push_chunk_ok by (lens; lia). rewrite <- !app_assoc. reflexivity.
     + apply Z.leb_gt in E.
-      unfold push_chunk at 1. destruct (blen b + blen (ac_aaguid a) <=? cap) eqn:E1; [|reflexivity]. cbn [bind].
+      rewrite push_chunk_cases. destruct (blen b + blen (ac_aaguid a) <=? cap) eqn:E1; [|reflexivity]. cbn [bind].
       apply Z.leb_le in E1.
-      unfold push_chunk at 1. destruct (_ <=? cap) eqn:E2; [|reflexivity]. cbn [bind]. apply Z.leb_le in E2.
-      unfold push_chunk at 1. destruct (_ <=? cap) eqn:E3; [|reflexivity]. cbn [bind]. apply Z.leb_le in E3.
+      rewrite push_chunk_cases. destruct (_ <=? cap) eqn:E2; [|reflexivity]. cbn [bind]. apply Z.leb_le in E2.
+      rewrite push_chunk_cases. destruct (_ <=? cap) eqn:E3; [|reflexivity]. cbn [bind]. apply Z.leb_le in E3.
       apply push_chunk_err. lens. lia.
   - apply Z.leb_gt in Eid. rewrite andb_false_r.
     destruct (65535 <? blen (ac_id a)) eqn:E0; [|apply Z.ltb_ge in E0; lia].
-    unfold push_chunk at 1. destruct (_ <=? cap); reflexivity.
+    rewrite push_chunk_cases. destruct (_ <=? cap); reflexivity.
 Qed.
 
-(* C07: the serializer returns exactly the layout, or fails; nothing in between *)
+(* C07: the serializer returns exactly the layout, or fails with Other; nothing in between *)
 Theorem authdata_serialize_layout : forall T e rp flags count acd ext x,
   match ext with
   | Some (t, v) => encode e t v = Some x
@@ -86,9 +84,75 @@ Theorem authdata_serialize_layout : forall T e rp flags count acd ext x,
     let L := authdata_layout rp flags count acd (match ext with Some _ => Some x | None => None end) in
     if (blen L <=? t_authdata_len T) && id_ok acd then Ok L else ErrOther.
 Proof.
-  intros T e rp flags count acd ext x Hx. unfold authdata_serialize.
-  set (cap := t_authdata_len T).
-  (* regroup the first three pushes *)
-  change (b <- push_chunk cap [] rp;; b0 <- push_chunk cap b [flags];; b1 <- push_chunk cap b0 (be 4 count);; ?k b1)
-    with (b1 <- (b <- push_chunk cap [] rp ;; b0 <- push_chunk cap b [flags] ;; push_chunk cap b0 (be 4 count)) ;; ?k b1).
-Abort.
+  intros T e rp flags count acd ext x Hx. unfold authdata_serialize, authdata_layout.
+  set (cap := t_authdata_len T). set (H := rp ++ [flags] ++ be 4 count).
+  rewrite ad_header_spec. fold H. cbv zeta.
+  destruct (blen H <=? cap) eqn:EH.
+  2:{ apply Z.leb_gt in EH. cbn [bind].
+      destruct ((blen (H ++ _ ++ _) <=? cap) && id_ok acd) eqn:E; [|reflexivity].
+      apply andb_true_iff in E. destruct E as [E _]. apply Z.leb_le in E.
+      rewrite blen_app in E.
+      match type of E with context [blen H + blen ?X] => pose proof (blen_nonneg X) end. lia. }
+  apply Z.leb_le in EH. cbn [bind].
+  destruct acd as [a|].
+  - rewrite ad_acd_spec. cbn [id_ok].
+    destruct ((blen H + blen (acd_bytes a) <=? cap) && (blen (ac_id a) <=? 65535)) eqn:EA.
+    + apply andb_true_iff in EA. destruct EA as [EA1 EA2]. apply Z.leb_le in EA1. rewrite EA2. rewrite andb_true_r.
+      cbn [bind]. destruct ext as [[t v]|].
+      * rewrite Hx. rewrite push_chunk_cases. rewrite !blen_app.
+        rewrite <- app_assoc. rewrite Z.add_assoc. destruct (blen H + blen (acd_bytes a) + blen x <=? cap); reflexivity.
+      * rewrite app_nil_r. rewrite blen_app.
+        destruct (blen H + blen (acd_bytes a) <=? cap) eqn:E; [reflexivity|apply Z.leb_gt in E; lia].
+    + cbn [bind]. apply andb_false_iff in EA. destruct EA as [EA|EA].
+      * apply Z.leb_gt in EA.
+        destruct ((blen (H ++ acd_bytes a ++ _) <=? cap) && _) eqn:E; [|reflexivity].
+        apply andb_true_iff in E. destruct E as [E _]. apply Z.leb_le in E.
+        rewrite !blen_app in E.
+        match type of E with context [blen (acd_bytes a) + blen ?X] => pose proof (blen_nonneg X) end. lia.
+      * rewrite EA. rewrite andb_false_r. reflexivity.
+  - cbn [id_ok app bind]. rewrite andb_true_r. destruct ext as [[t v]|].
+    + rewrite Hx. rewrite push_chunk_cases. rewrite blen_app. reflexivity.
+    + rewrite app_nil_r. destruct (blen H <=? cap) eqn:E; [reflexivity|apply Z.leb_gt in E; lia].
+Qed.
+
+(* ---- C09: push / extend chain into a bounded buffer *)
+Lemma vpush_cases : forall cap buf chunk,
+  vpush cap buf chunk = if blen buf + blen chunk <=? cap then Some (buf ++ chunk) else None.
+Proof. reflexivity. Qed.
+
+(* success: everything appended after the prior contents, which are not disturbed *)
+Lemma vpush_all_fits : forall parts cap buf,
+  blen buf + blen (List.concat parts) <= cap -> vpush_all cap buf parts = (true, buf ++ List.concat parts).
+Proof.
+  induction parts as [|p r IH]; intros cap buf H; cbn [vpush_all List.concat].
+  - rewrite app_nil_r. reflexivity.
+  - cbn [List.concat] in H. rewrite blen_app in H. pose proof (blen_nonneg (List.concat r)).
+    rewrite vpush_cases. destruct (blen buf + blen p <=? cap) eqn:E; [|apply Z.leb_gt in E; lia].
+    rewrite IH by (rewrite blen_app; lia). rewrite <- app_assoc. reflexivity.
+Qed.
+
+(* failure: the call reports failure and the buffer holds the prior contents followed by the whole
+   leading parts that fitted - a proper prefix of the response, never a cut part *)
+Lemma vpush_all_overflow : forall parts cap buf,
+  blen buf <= cap -> cap < blen buf + blen (List.concat parts) ->
+  exists k, (k < List.length parts)%nat /\
+            vpush_all cap buf parts = (false, buf ++ List.concat (firstn k parts)).
+Proof.
+  induction parts as [|p r IH]; intros cap buf Hb H; cbn [vpush_all List.concat].
+  - cbn [List.concat] in H. unfold blen in *. cbn [List.length] in H. lia.
+  - cbn [List.concat] in H. rewrite blen_app in H.
+    rewrite vpush_cases. destruct (blen buf + blen p <=? cap) eqn:E.
+    + apply Z.leb_le in E. destruct (IH cap (buf ++ p)) as [k [Hk Hv]]; [rewrite blen_app; lia|rewrite blen_app; lia|].
+      exists (S k). split; [cbn [List.length]; lia|]. rewrite Hv. cbn [firstn List.concat]. rewrite <- app_assoc. reflexivity.
+    + exists O. split; [cbn [List.length]; lia|]. cbn [firstn List.concat]. rewrite app_nil_r. reflexivity.
+Qed.
+
+Lemma vpush_all_prefix_kept : forall parts cap buf,
+  exists suffix, snd (vpush_all cap buf parts) = buf ++ suffix.
+Proof.
+  induction parts as [|p r IH]; intros cap buf; cbn [vpush_all].
+  - exists []. rewrite app_nil_r. reflexivity.
+  - rewrite vpush_cases. destruct (blen buf + blen p <=? cap).
+    + destruct (IH cap (buf ++ p)) as [s Hs]. exists (p ++ s). rewrite Hs. rewrite <- app_assoc. reflexivity.
+    + exists []. rewrite app_nil_r. reflexivity.
+Qed.
